@@ -64,22 +64,48 @@ pub(crate) mod verif_oracle {
     pub const SLOTS: usize = 17;
     pub const POISON: usize = 1000;
     pub static mut VERIF_ORACLE_END: [Option<usize>; SLOTS] = [Some(POISON); SLOTS];
-    pub static mut VERIF_ORACLE_HAYLEN: usize = 0;
-    pub static mut VERIF_ORACLE_CALLS_OK: bool = true;
-    pub static mut VERIF_ORACLE_ACTIVE: bool = false;
+    // One array with a unique initial content instead of separate `static mut` scalars: Kani 0.68 merges a
+    // `static mut X: usize = 0` (or bool) with constant allocations of the same content in std (observed: the
+    // haystack length written here showed up as `RawVec`'s `Cap::ZERO`, i.e. every empty Vec had capacity 4
+    // and "freed" a dangling pointer - spurious __rust_dealloc failures that never replay natively).
+    pub static mut VERIF_ORACLE_STATE: [u64; 3] = [0x5EED_0A0B_0C0D_0001, 0x5EED_0A0B_0C0D_0002, 0x5EED_0A0B_0C0D_0003];
+    const BAD: u64 = 0xBAD0_BAD0_BAD0_BAD0;
+    const ON: u64 = 0x0A0A_0A0A_0A0A_0A0A;
+
+    pub fn set_haylen(n: usize) {
+        unsafe { VERIF_ORACLE_STATE[0] = n as u64 }
+    }
+    pub fn haylen() -> usize {
+        unsafe { VERIF_ORACLE_STATE[0] as usize }
+    }
+    pub fn reset_calls() {
+        unsafe { VERIF_ORACLE_STATE[1] = 0 }
+    }
+    pub fn mark_bad() {
+        unsafe { VERIF_ORACLE_STATE[1] = BAD }
+    }
+    pub fn calls_ok() -> bool {
+        unsafe { VERIF_ORACLE_STATE[1] != BAD }
+    }
+    pub fn set_active() {
+        unsafe { VERIF_ORACLE_STATE[2] = ON }
+    }
+    pub fn active() -> bool {
+        unsafe { VERIF_ORACLE_STATE[2] == ON }
+    }
 
     pub fn lookup<I: InputIndexer>(inp: &I, pos: I::Position) -> Option<I::Position> {
         let off = inp.pos_to_offset(pos);
         unsafe {
-            if inp.right_end() - inp.left_end() != VERIF_ORACLE_HAYLEN {
-                VERIF_ORACLE_CALLS_OK = false;
+            if inp.right_end() - inp.left_end() != haylen() {
+                mark_bad();
             }
             match VERIF_ORACLE_END[off] {
                 None => None,
                 Some(e) => match inp.try_move_right(inp.left_end(), e) {
                     Some(p) => Some(p),
                     None => {
-                        VERIF_ORACLE_CALLS_OK = false;
+                        mark_bad();
                         None
                     }
                 },
@@ -89,22 +115,53 @@ pub(crate) mod verif_oracle {
 }
 '''
 
+# Appended to the COPY of classicalbacktrack.rs (cfg kani only): models that harnesses of OTHER modules may use
+# as Kani stubs for two private functions of BacktrackExecutor.  They live here because they need the private
+# fields.  Each model is itself checked against the real function by the C09 harnesses (same oracle table).
+BT_MODEL_MOD = r'''
+#[cfg(kani)]
+#[allow(dead_code)]
+pub(crate) mod verif_model {
+    use super::*;
+    use crate::verif_oracle as vo;
+
+    /// Model of `BacktrackExecutor::successful_match` for a regex WITHOUT capture groups: the match range
+    /// converted to byte offsets, no captures, no names.
+    pub fn successful_match_model<'a: 'a, Input: InputIndexer>(
+        this: &mut BacktrackExecutor<'a, Input>,
+        start: Input::Position,
+        end: Input::Position,
+    ) -> Match {
+        if this.matcher.s.groups.len() != 0 || this.matcher.re.group_names.len() != 0 {
+            unsafe {
+                vo::mark_bad();
+            }
+        }
+        Match {
+            range: this.input.pos_to_offset(start)..this.input.pos_to_offset(end),
+            captures: Vec::new(),
+            group_names: Box::new([]),
+        }
+    }
+}
+'''
+
 # playback only: route the real try_at_pos through the same table (Kani does not apply #[kani::stub] to
 # concrete playback tests, so without this a counterexample of a stubbed harness could not be replayed)
 HOOK_BT = '''
         #[cfg(kani)]
-        if unsafe { crate::verif_oracle::VERIF_ORACLE_ACTIVE } {
+        if crate::verif_oracle::active() {
             if ip != 0 || self.bts.len() != 1 {
-                unsafe { crate::verif_oracle::VERIF_ORACLE_CALLS_OK = false; }
+                crate::verif_oracle::mark_bad();
             }
             return crate::verif_oracle::lookup(&inp, pos);
         }
 '''
 HOOK_PIKE = '''
         #[cfg(kani)]
-        if unsafe { crate::verif_oracle::VERIF_ORACLE_ACTIVE } {
+        if crate::verif_oracle::active() {
             if init_state.ip != 0 {
-                unsafe { crate::verif_oracle::VERIF_ORACLE_CALLS_OK = false; }
+                crate::verif_oracle::mark_bad();
             }
             return match crate::verif_oracle::lookup(&input, init_state.pos) {
                 Some(p) => {
@@ -165,6 +222,8 @@ def make_mirror(dest, harness_mods, cfg="kani", top_mod=None, extra_lib_lines=()
             body, ok = _insert_hook(body, HOOK_BT)
         if playback_hook and mod == "pikevm":
             body, ok = _insert_hook(body, HOOK_PIKE)
+        if mod == "classicalbacktrack" and cfg == "kani":
+            body += BT_MODEL_MOD
         if mod == "lib":
             if cfg == "kani":
                 body += ORACLE_MOD
